@@ -752,6 +752,21 @@ class introduction(Method):
             names = [name.strip() for name in data['names'].split(",")]
         else:
             names = []
+
+        # Terms are printed without types: a name that is already a variable at this point
+        # with another type would make the lines that follow ambiguous (they cannot be
+        # read back), as for the duplicate names refused by exists_elim.
+        cur_vars = state.get_vars(id)
+        t, i = prop, 0
+        while i < len(names) and (t.is_forall() or t.is_implies()):
+            if t.is_forall():
+                if names[i] in cur_vars and cur_vars[names[i]] != t.arg.var_T:
+                    raise AssertionError("introduction: variable %s already exists with another type" % names[i])
+                i += 1
+                t = t.arg.body
+            else:
+                t = t.arg
+
         pt = intros_tac.get_proof_term(cur_item.th, args=names)
 
         cur_item.rule = "subproof"
@@ -1035,8 +1050,11 @@ class new_var(Method):
         return pprint.N("Variable " + data['name'] + " :: ") + printer.print_type(T)
 
     def apply(self, state: ProofState, id, data, prevs):
-        state.add_line_before(id, 1)
         T = parser.parse_type(data['type'])
+        cur_vars = state.get_vars(id)
+        if data['name'] in cur_vars and cur_vars[data['name']] != T:
+            raise AssertionError("new_var: variable %s already exists with another type" % data['name'])
+        state.add_line_before(id, 1)
         state.set_line(id, 'variable', args=(data['name'], T), prevs=[])
 
 
